@@ -125,7 +125,7 @@ func (o *vectorOperator) initOutputs(ctx context.Context) error {
 		includeLabels = o.matching.Include
 	}
 	keepLabels := o.matching.Card != parser.CardOneToOne
-	keepName := o.opType.IsComparisonOperator()
+	keepName := !shouldDropMetricName(o.opType, o.returnBool)
 	highCardHashes, highCardInputMap := o.hashSeries(highCardSide, keepLabels, keepName, buf)
 	lowCardHashes, lowCardInputMap := o.hashSeries(lowCardSide, keepLabels, keepName, buf)
 	output, highCardOutputIndex, lowCardOutputIndex := o.join(highCardHashes, highCardInputMap, lowCardHashes, lowCardInputMap, includeLabels)
@@ -339,4 +339,15 @@ func buildOutputSeries(seriesID uint64, highCardSeries, lowCardSeries model.Seri
 		metric = append(metric, lowCardLabels...)
 	}
 	return model.Series{ID: seriesID, Metric: metric}
+}
+
+// shouldDropMetricName reports whether the result of the operation loses the metric
+// name: arithmetic operators (not atan2) and comparisons with the bool modifier,
+// as in the Prometheus engine.
+func shouldDropMetricName(op parser.ItemType, returnBool bool) bool {
+	switch op {
+	case parser.ADD, parser.SUB, parser.DIV, parser.MUL, parser.POW, parser.MOD:
+		return true
+	}
+	return returnBool
 }
